@@ -443,6 +443,30 @@ def run_linked_documents(ctx):
     return n
 
 
+def run_same_basename(ctx):
+    """rules files that share a base name in different directories (team_a/check.guard, team_b/check.guard), given as two -r arguments
+    and as a directory, the failing one first or last: every mode exits 19 when one of them FAILs, 0 when none does"""
+    d = os.path.join(ctx.wd, 'sbn')
+    ok, bad = 'rule sized {\n  size <= 10\n}\n', 'rule small {\n  size <= 1 <<too big>>\n}\n'
+    jobs, meta = [], []
+    for lab, (ra, rb), want in (('pass-then-fail', (ok, bad), 19), ('fail-then-pass', (bad, ok), 19), ('both-pass', (ok, ok.replace('sized', 'sized2')), 0)):
+        dd = os.path.join(d, lab)
+        e2e.write_files(dd, {'pol/team_a/check.guard': ra, 'pol/team_b/check.guard': rb, 'doc.json': '{"size": 5}'})
+        for how, rargs in (('two -r', ['-r', 'pol/team_a/check.guard', '-r', 'pol/team_b/check.guard']), ('directory', ['-r', 'pol'])):
+            for mlab, flags in (('plain', []), ('s-json', ['--structured', '-o', 'json', '-S', 'none']), ('s-yaml', ['--structured', '-o', 'yaml', '-S', 'none']),
+                                ('s-sarif', ['--structured', '-o', 'sarif', '-S', 'none']), ('s-junit', ['--structured', '-o', 'junit', '-S', 'none'])):
+                jobs.append({'args': ['validate'] + rargs + ['-d', 'doc.json'] + flags, 'cwd': dd}); meta.append((lab, how, mlab, want))
+    n = 0
+    for (lab, how, mlab, want), (code, so, se) in zip(meta, e2e.run_many(jobs)):
+        n += 1
+        if code != want:
+            ctx.failing('two rules files named check.guard in different directories (%s, %s, %s): exit %s, expected %d' % (lab, how, mlab, code, want),
+                        {'class': 'same-basename', 'scenario': lab, 'how': how, 'mode': mlab, 'stdout': so[:400].decode('utf-8', 'replace'), 'stderr': se[-300:].decode('utf-8', 'replace')}, found=True)
+    ctx.coverage['same_basename_runs'] = n
+    ctx.coverage['evaluations'] += n
+    return n
+
+
 def run(ctx):
     ctx.build(cli=True)
     ok, problems = tables.regenerate()
@@ -453,7 +477,8 @@ def run(ctx):
     thorough = ctx.tier == 'thorough'
     n1 = run_validate(ctx, 260 if thorough else 50, thorough)
     n2 = run_test_cmd(ctx, 200 if thorough else 40) + run_linked_documents(ctx)
-    from .c16 import run_default_rule
+    from .c16 import run_default_rule, run_multi_files
+    n2 += run_same_basename(ctx) + run_multi_files(ctx)     # several spec files / rules files in one `test` run: 7 iff an expectation is unmet, in every order
     n2 += run_default_rule(ctx)     # file-level clauses: the default rule's expectation decides the exit code in every rendering
     ctx.coverage['distinct_nontrivial'] = n1 + n2
     ctx.coverage['rule'] = ('scenario = 1..3 rules files (passing, failing, skipping, guarded, syntactically broken, empty, raising an evaluation '
